@@ -1140,7 +1140,7 @@ func (w *world) step(a action, closed *bool) {
 		}
 		var pc *capnp.Client
 		placed := false
-		if a.Kind == "withcap" {
+		if a.Kind == "withcap" || a.Kind == "withcap-c" {
 			// the parameters carry a capability of this vat: the connection has to export it
 			name := fmt.Sprintf("P%d", tag)
 			pc = w.newCap(name)
@@ -1178,7 +1178,7 @@ func (w *world) step(a action, closed *bool) {
 		}
 		w.wg.Add(1)
 		ctx, cancel := context.WithTimeout(context.Background(), 3*time.Second)
-		if a.Kind == "cancellable" {
+		if a.Kind == "cancellable" || a.Kind == "withcap-c" {
 			w.mu.Lock()
 			w.cancels[tag] = cancel
 			w.mu.Unlock()
